@@ -5,7 +5,7 @@ from .u5_encode import common_types
 from .u6_builder import emit_builder_struct
 
 NAME = 'u12_rewrite'
-PROPS = ['C09', 'C05']
+PROPS = ['C09', 'C05', 'C04']
 T = 'src/types.rs'
 B = 'src/builder.rs'
 
